@@ -105,6 +105,8 @@ func newModel(thorough bool) *chainprop.Model {
 					hostile{"future-epoch nonce1 " + n, world.NewB(t.A).Tx(world.Spec{From: from, To: world.PA(world.Z), Type: types.SendTx, Amount: replica.Dna(1), EpochD: 1, Nonce: 1})},
 					hostile{"future-epoch next-nonce " + n, world.NewB(t.A).Tx(world.Spec{From: from, To: world.PA(world.Z), Type: types.SendTx, Amount: replica.Dna(1), EpochD: 1})},
 					hostile{"nonce-gap " + n, world.NewB(t.A).Tx(world.Spec{From: from, To: world.PA(world.Z), Type: types.SendTx, Amount: replica.Dna(1), NonceD: 1})},
+					// one below the next nonce: the last used one, or 0 for an account whose sequence (re)starts at 1
+					hostile{"nonce-below-next " + n, world.NewB(t.A).Tx(world.Spec{From: from, To: world.PA(world.Z), Type: types.SendTx, Amount: replica.Dna(1), NonceD: -1})},
 				)
 				if t.A.App.State.Epoch() > 0 {
 					hs = append(hs, hostile{"past-epoch " + n, world.NewB(t.A).Tx(world.Spec{From: from, To: world.PA(world.Z), Type: types.SendTx, Amount: replica.Dna(1), EpochD: -1, Nonce: 1})})
